@@ -194,7 +194,7 @@ def install2(R):
         bounded_in_quick="crop route against the direct route on the real code: replay/C06.py (Runner: grids, shuffle, sow-time constants, internal dimensions, resources, "
                          "attributes, last_ds; Harvester: three overwrite policies, engines joblib and h5netcdf, accumulated dataset in memory and on disk against a direct "
                          "harvest; Sampler: rows appended, last_df; each also with the crop and its farmer reloaded by name between sow, grow and reap; one runner used for several crops "
-                         "in a row, with constants given to an earlier sowing and another grid sown first)",
+                         "in a row, with constants given to an earlier sowing and another grid sown first; a crop constructed with both fn= and farmer=)",
         not_decided=["reload of crop and farmer by name (pickled farmer without its function, function re-attached): bounded replay only",
                      "equality of the final datasets is by congruence from equal builder inputs (C03 proves the builder's output is determined by them)"],
         assumptions=["pickle / cloudpickle round trip; xarray / pandas builders"],
